@@ -513,13 +513,17 @@ def gen_case(rng, cid, calc, decl, family, stats):
     if family != "valid":
         p = rng.choice([0.7, 0.95, 1.0])
     root = ET.Element("options")
+    before = stats.get("unchecked_filled", 0)
     ucalc = gen_user(rng, dcalc, p, family == "unchecked", stats)
     root.append(ucalc)
+    if family == "unchecked" and stats.get("unchecked_filled", 0) == before:
+        family = "valid"      # no unchecked section in this user tree
+        cid = cid.replace("unchecked", "valid")
     if family in ("valid", "unchecked"):
         return Case(cid, calc, family, root)
     pairs = [(dcalc, ucalc, root)]
     walk_pairs(dcalc, ucalc, pairs)
-    if family == "fault_undeclared":
+    if family in ("fault_undeclared", "fault_undeclared_userattr"):
         # a name that is declared nowhere, below a section, a list, a list
         # element or a leaf
         d, u, _ = rng.choice([x for x in pairs if not is_unchecked(x[0])])
@@ -527,6 +531,11 @@ def gen_case(rng, cid, calc, decl, family, stats):
         c = ET.Element(nm)
         c.text = rng.choice(WORDS)
         u.insert(rng.randint(0, len(u)), c)
+        if family == "fault_undeclared_userattr":
+            # the USER marks his own node unchecked=""; the description does
+            # not declare the section unchecked, so the name is still undeclared
+            u.set("unchecked", "")
+            return Case(cid, calc, family, root, ("undeclared_userattr", nm))
         return Case(cid, calc, family, root, ("undeclared", nm))
     if family == "fault_required":
         cand = [(d, u, par) for d, u, par in pairs
@@ -605,8 +614,11 @@ def count_decl_leaves(d):
     return sum(1 for e in d.iter() if len(e) == 0)
 
 
-FAMILIES = ["valid"] * 11 + ["fault_undeclared"] * 3 + ["fault_choice"] * 3 + \
-    ["fault_required"] * 2 + ["unchecked"] * 1
+FAMILIES = ["valid", "fault_undeclared", "valid", "fault_choice", "valid",
+            "unchecked", "valid", "fault_required", "valid", "valid",
+            "fault_undeclared", "valid", "fault_choice", "valid",
+            "fault_required", "valid", "fault_undeclared_userattr", "valid",
+            "fault_choice", "valid"]
 
 
 def worker(args):
@@ -660,9 +672,21 @@ def worker(args):
                 f.write(c.xml)
             mf.write("%s\tP\t%s\t%s\n" % (c.id, c.calc, c.file))
     env = dict(os.environ)
-    p = subprocess.run([args["harness"], "--mode", "merge", "--defaults",
-                        xmldir + "/", "--manifest", man],
-                       stdout=subprocess.PIPE, stderr=subprocess.PIPE, env=env)
+    import time
+    for attempt in range(8):
+        p = subprocess.run([args["harness"], "--mode", "merge", "--defaults",
+                            xmldir + "/", "--manifest", man],
+                           stdout=subprocess.PIPE, stderr=subprocess.PIPE,
+                           env=env)
+        if p.returncode == 127 and b"loading shared libraries" in p.stderr:
+            time.sleep(3 + 2 * attempt)   # concurrent re-link of the library
+            continue
+        break
+    if p.returncode == 127 and b"loading shared libraries" in p.stderr:
+        out.inconclusive("libraries were being rebuilt during merge shard %d"
+                         % shard)
+        out.summary()
+        return 0
     res = {}
     for ln in p.stdout.decode("utf-8", "replace").splitlines():
         if not ln.startswith("{"):
@@ -782,11 +806,21 @@ def judge(out, c, r, decl, xmldir):
         return
     out.distinct.add(h)
     model_kinds = set(kinds)
+    userattr = (kind == "undeclared_userattr")
+    if userattr:
+        kind = "undeclared"
     if kind not in model_kinds:
         out.inconclusive("fault %s not seen by the model in %s" % (kind, c.id))
         return
     if r["ok"]:
         wit["resolved"] = r["tree"]
+        if userattr:
+            out.violation("merge/user-unchecked-attribute-bypasses-name-check",
+                          "an undeclared option '%s' below a user node that "
+                          "carries unchecked=\"\" (the description does not "
+                          "declare that section unchecked) is accepted and "
+                          "silently dropped" % name, wit)
+            return
         out.violation("merge/fault-accepted/" + kind,
                       "an input with an injected fault (%s '%s') is accepted"
                       % (kind, name), wit)
@@ -797,7 +831,7 @@ def judge(out, c, r, decl, xmldir):
                       "the error for the injected fault does not name the "
                       "option", wit)
         return
-    out.counter("faults_rejected_naming_option_" + kind)
+    out.counter("faults_rejected_naming_option_" + c.fault[0])
     if len(out.samples) < 4 and kind == "choice":
         out.samples.append({"calc": c.calc, "family": fam, "fault": c.fault,
                             "error": r["err"].strip()[:300]})
